@@ -172,3 +172,49 @@ package getty
 //@   ensures result1 == nil && isT(msg, message.GlobalBeginRequest) ==> isT(result0, message.GlobalBeginResponse)
 //@   ensures result1 == nil && isT(msg, message.GlobalCommitRequest) ==> isT(result0, message.GlobalCommitResponse)
 //@   ensures result1 == nil && isT(msg, message.GlobalRollbackRequest) ==> isT(result0, message.GlobalRollbackResponse)
+
+// ---- C14: request/response correlation (sequential contracts; sync.Map operations are atomic)
+
+//@ ghost var wp_calls int
+//@ ghost var wp_err_nil bool
+//@ ghost var wp_id int
+//@ iface (getty.Session).IsClosed
+//@   ensures true
+//@ iface (getty.Session).WritePkg
+//@   modifies ghost.wp_calls, ghost.wp_err_nil, ghost.wp_id
+//@   ensures ghost.wp_calls == old(ghost.wp_calls) + 1 && ghost.wp_err_nil == (result2 == nil)
+//@ iface (getty.Session).Stat
+//@   ensures true
+//@ ext callback:callback
+//@   ensures true
+
+//@ func (*GettyRemoting).sendAsync
+//@   prop C14
+//@   requires g != nil && g.futures != nil && ghost.wp_calls == 0
+//@   let k := some(int32, "k")
+//@   let closed := session == nil
+//@   ensures closed-session: session == nil ==> result1 != nil && ghost.wp_calls == 0 && syncmapp(g.futures)[box(msg.ID, int32)] == old(syncmapp(g.futures)[box(msg.ID, int32)])
+//@   ensures write-failed-cleans: ghost.wp_calls == 1 && !ghost.wp_err_nil ==> result1 != nil && syncmapp(g.futures)[box(msg.ID, int32)] == nil
+//@   ensures no-waiter-no-entry: callback == nil ==> syncmapp(g.futures)[box(msg.ID, int32)] == old(syncmapp(g.futures)[box(msg.ID, int32)]) || syncmapp(g.futures)[box(msg.ID, int32)] == nil
+//@   ensures other-requests-untouched: k != msg.ID ==> syncmapp(g.futures)[box(k, int32)] == old(syncmapp(g.futures)[box(k, int32)])
+//@   at call callback:callback#1: assert registered-before-wait: isT(syncmapp(g.futures)[box(msg.ID, int32)], *message.MessageFuture) && syncmapp(g.futures)[box(msg.ID, int32)].(*message.MessageFuture) == arg_respMsg && arg_respMsg.ID == msg.ID && ghost.wp_calls == 1 && ghost.wp_err_nil
+
+//@ func (*GettyRemoting).NotifyRpcMessageResponse
+//@   prop C14
+//@   defs nonblocking
+//@   requires g != nil && g.futures != nil
+//@   let k := some(int32, "k")
+//@   let f := syncmapp(g.futures)[box(rpcMessage.ID, int32)]
+//@   requires f != nil ==> isT(f, *message.MessageFuture) && f.(*message.MessageFuture) != nil
+//@   requires f != nil ==> chancap(f.(*message.MessageFuture).Done) >= 1 && chanlen(f.(*message.MessageFuture).Done) == 0
+//@   modifies f.(*message.MessageFuture).Response, chanlen(f.(*message.MessageFuture).Done)
+//@   ensures completes-own: f != nil ==> f.(*message.MessageFuture).Response == rpcMessage.Body && chanlen(f.(*message.MessageFuture).Done) == 1
+//@   ensures registry-untouched: syncmapp(g.futures)[box(k, int32)] == old(syncmapp(g.futures)[box(k, int32)])
+
+//@ func (*GettyRemotingClient).syncCallback
+//@   prop C14
+//@   requires g != nil && g.gettyRemoting != nil && g.gettyRemoting.futures != nil && g.gettyRemoting.mergeMsgMap != nil && respMsg != nil
+//@   let k := some(int32, "k")
+//@   ensures timeout-cleans: selected(0) ==> result1 != nil && syncmapp(g.gettyRemoting.futures)[box(reqMsg.ID, int32)] == nil
+//@   ensures delivers-own: selected(1) ==> result0 == respMsg.Response && result1 == respMsg.Err
+//@   ensures other-requests-untouched: k != reqMsg.ID ==> syncmapp(g.gettyRemoting.futures)[box(k, int32)] == old(syncmapp(g.gettyRemoting.futures)[box(k, int32)])
